@@ -809,11 +809,16 @@ def _stream_exhaustive2(ctx, root, lines):
     for name, a, b in PAIR_SCRIPTS:
         for init in (b"old",) if name != "wwc/wc" else (b"old", None):
             la, lb = solo_len(root, a, init), solo_len(root, b, init)
-            for sch in sched.enumerate_schedules({"0": la, "1": lb}, 2):
-                check_case(ctx, stream, root, [a, b], [(int(x), None) for x in sch], init, tag=name, lines=lines)
+            maxp = 3 if ctx.thorough else 2
+            for sch in sched.enumerate_schedules({"0": la, "1": lb}, maxp):
+                rr = check_case(ctx, stream, root, [a, b], [(int(x), None) for x in sch], init, tag=name, lines=lines)
                 total += 1
+            if name == "wwc/wc" and init is not None:
+                ctx.sample({"stream": stream, "scripts": [a.spec(), b.spec()], "schedule": "".join(sch),
+                            "real_trace": real_trace(rr)})
         flush_model(ctx, lines)
     ctx.extra_cov["exhaustive2_schedules"] = total
+    ctx.extra_cov["exhaustive2_max_preemptions"] = 3 if ctx.thorough else 2
 
 
 def _stream_faults2(ctx, root, lines):
@@ -893,7 +898,10 @@ def _stream_random(ctx, root, lines):
         for _ in range(rng.randint(4, 10 * n)):
             fk = rng.choice(FAULT_KINDS) if rng.random() < 0.12 else None
             sch.append((rng.randrange(n), fk))
-        check_case(ctx, stream, root, scripts, sch, init, lines=lines)
+        rr = check_case(ctx, stream, root, scripts, sch, init, lines=lines)
+        if len(ctx.samples) < 4 and any(fk for _, fk in rr.steps) and len(rr.events) > 8:
+            ctx.sample({"stream": stream, "scripts": [x.spec() for x in scripts],
+                        "executed": [f"{i}{'!' + fk if fk else ''}" for i, fk in rr.steps], "real_trace": real_trace(rr)})
     flush_model(ctx, lines)
 
 
@@ -925,6 +933,9 @@ def _run_corpus(ctx, root, lines):
                 if not (tr and tr[-1].startswith("open-x:ok") and fin.get("owns") == "011"):
                     ctx.disagree(stream, {"witness": f.name}, out[:300],
                                  "expected the pre-dd7ffc5 program to let C in while B owns the lock")
+        elif c.get("kind") == "caller-fault":
+            _stream_fault_callers(ctx, Path(os.path.realpath(ctx.scratch)) / "corpus-callers", only={c["routine"]},
+                                  only_fault=(c["fail_at"], c["fault"]), stream="corpus.callers", extra=False)
         elif "scripts" in c:   # a case recorded by this module
             scripts = [Script.from_spec(s) for s in c["scripts"]]
             sch = [(i, fk) for i, fk in c["schedule"]]
@@ -1280,8 +1291,7 @@ def _judge_fault(ctx, stream, name, k, kind, fr, ref_events, old, new, targets):
                         f"the exception (only the handle's finaliser removes it)", cls)
 
 
-def _stream_fault_callers(ctx, base: Path, only=None, only_fault=None):
-    stream = "fault.callers"
+def _stream_fault_callers(ctx, base: Path, only=None, only_fault=None, stream="fault.callers", extra=True):
     tpl = base / "tpl"
     ids = build_template(tpl)
     _prepare_extra(tpl, ids)
@@ -1318,7 +1328,7 @@ def _stream_fault_callers(ctx, base: Path, only=None, only_fault=None):
                 cov[name]["lock_protocol_calls"] += 1
             if call == "write" and k not in keep_w and only_fault is None:
                 continue
-            if only_fault is not None and k != only_fault[0]:
+            if only_fault is not None and k != (widx[-1] if only_fault[0] == "last-write" and widx else only_fault[0]):
                 continue
             kinds = kinds_all if on_lock else [kinds_all[k % len(kinds_all)]]
             if only_fault is not None:
@@ -1329,9 +1339,10 @@ def _stream_fault_callers(ctx, base: Path, only=None, only_fault=None):
                 fr = run_with_fault(w, op, k, kind, old, new, targets)
                 ctx.count(stream, (name, k, kind), True, f"{name}:{call}")
                 _judge_fault(ctx, stream, name, k, kind, fr, ref.events, old, new, targets)
-    ctx.extra_cov["fault_injection_routines"] = cov
+    if extra:
+        ctx.extra_cov["fault_injection_routines"] = cov
     # F7 without any injected fault: an entry whose size does not fit the 32-bit field
-    if not only or "Index.write" in only:
+    if extra and (not only or "Index.write" in only):
         shutil.rmtree(w, ignore_errors=True)
         shutil.copytree(tpl, w, symlinks=True)
 
